@@ -70,18 +70,29 @@ def baseline_closures(fns):
 
 
 def new_closures(fns, base):
-    """ids of the closures whose body matches no closure of the same function in the baseline"""
+    """ids of the closures that are new relative to the baseline: a function that has MORE closures than it had then
+    has gained some, and those are the ones whose body resembles none of its baseline closures (the least similar
+    first, as many as were gained). A function with the same number of closures has at most rewritten them in place."""
     known = base.get("closures")
     if known is None:
         return set()
-    out = set()
+    by_parent = {}
     for f in fns:
-        if "blocks" not in f or f.get("kind") != "closure":
+        if "blocks" in f and f.get("kind") == "closure":
+            by_parent.setdefault(closure_parent(f["name"]), []).append(f)
+    out = set()
+    for parent, cs in by_parent.items():
+        olds = [Counter(dict((k, v) for k, v in o)) for o in known.get(parent, [])]
+        gained = len(cs) - len(olds)
+        if gained <= 0:
             continue
-        fp = fingerprint(f)
-        olds = [Counter(dict((k, v) for k, v in o)) for o in known.get(closure_parent(f["name"]), [])]
-        if not any((not fp and not o) or similarity(fp, o) >= THRESHOLD for o in olds):
-            out.add(f["id"])
+        scored = []
+        for f in cs:
+            fp = fingerprint(f)
+            best = max([1.0 if (not fp and not o) else similarity(fp, o) for o in olds], default=0.0)
+            scored.append((best, f["id"]))
+        scored.sort()
+        out.update(fid for best, fid in scored[:gained] if best < THRESHOLD)
     return out
 
 
